@@ -61,6 +61,9 @@ def strings_of(c):
             return list(c), (len(c),)
         if all(isinstance(x, (list, tuple)) and len(x) > 0 and all(isinstance(y, str) for y in x) for x in c) and len(set(len(x) for x in c)) == 1:
             return [y for x in c for y in x], (len(c), len(c[0]))
+        # what bin() / hex() return for a 2-dimensional object: a list of arrays of strings
+        if all(isinstance(x, np.ndarray) and x.dtype.kind in 'US' and x.ndim == 1 and x.size > 0 for x in c) and len(set(x.size for x in c)) == 1:
+            return [y for x in c for y in x.tolist()], (len(c), c[0].size)
     return None
 
 
@@ -68,8 +71,9 @@ def denoted_code(s, signed, n_word, n_frac, from_bin):
     """code denoted by a full-width bin/hex string, or None if the string is not one the oracle covers"""
     t = s.strip()
     low = t.lower()
-    if low.startswith('0x'):
-        digits = t[2:]
+    hp = next((pf for pf in ('0x', '0h', 'x', 'h') if low.startswith(pf)), None)     # every prefix hex() can be asked for, in any case
+    if hp is not None:
+        digits = t[len(hp):]
         if len(digits) != (n_word + 3) // 4 or any(ch not in '0123456789abcdefABCDEF' for ch in digits):
             return None
         p = int(digits, 16)
@@ -252,7 +256,12 @@ def make_judges(ctx):
             ctx.violation('parse', '%s%s into %s: strings %.120r restored codes %s (shape %r), they denote %s (shape %r)' % (
                 route, ' raw' if raw else '', R.dtype_fxp(signed, n_word, n_frac), strs[:3], [str(k) for k in post.codes[:3]], post.shape, [str(k) for k in codes[:3]], shape), ev)
         lo, hi = R.code_range(signed, n_word)
-        form = 'hex' if strs[0].lower().startswith('0x') else ('bin.dot' if '.' in strs[0] else 'bin')
+        form = 'hex' if strs[0].lower().lstrip('0')[:1] in ('x', 'h') else ('bin.dot' if '.' in strs[0] else 'bin')
+        pfx = strs[0][:2] if strs[0][:1] == '0' else strs[0][:1]
+        if pfx not in ('0b', '0x') and pfx[-1:].lower() in ('b', 'x', 'h'):
+            ctx.floor_hit(('parse-prefix', pfx))
+        if isinstance(car, list) and isinstance(car[0], np.ndarray):
+            ctx.floor_hit(('parse-container', 'list-of-arrays', 2))
         cc = sorted(set(code_class(k, lo, hi) for k in codes[:16]))
         nontriv = any(k < 0 for k in codes) or n_word % 4 != 0 or n_frac in (0, n_word)
         ctx.judged(('parse', form, route, 'raw' if raw else 'value', G.word_class(n_word), G.frac_class(n_word, n_frac), tuple(cc), len(shape)), nontriv, None, elements=len(codes))
@@ -266,7 +275,8 @@ def floors(tier):
     cells = [('render', f) for f in ('bin', 'bin.dot', 'bin+prefix', 'hex', 'base2', 'base8', 'base10', 'base16', 'base36')]
     cells += [('parse', f, r, m) for f in ('bin', 'hex') for r in ('constructor', 'call', 'set_val') for m in ('raw', 'value') if not (r == 'call' and m == 'raw')]
     cells += [('parse', 'bin', 'from_bin', 'value'), ('parse', 'bin', 'from_bin', 'raw'), ('parse', 'bin', 'from_bin_function', 'value'), ('parse', 'bin.dot', 'constructor', 'value')]
-    cells += [('parse-container', 'list', 1), ('parse-container', 'list', 2), ('parse-container', 'ndarray', 1), ('parse-container', 'ndarray', 2)]
+    cells += [('parse-container', 'list', 1), ('parse-container', 'list', 2), ('parse-container', 'ndarray', 1), ('parse-container', 'ndarray', 2), ('parse-container', 'list-of-arrays', 2)]
+    cells += [('parse-prefix', pf) for pf in ('b', 'B', '0B', 'x', 'X', '0X', 'h', '0h', 'H', '0H')] + [('render-cfg', 'bin_prefix'), ('render-cfg', 'hex_prefix_none')]
     return cells
 
 
@@ -329,6 +339,44 @@ def roundtrip(ctx, x, s, w, nf, arrays=True):
         if b is not None:
             _try(lambda: mk().from_bin(fresh(b), raw=raw))
             _try(lambda: fm.from_bin(fresh(b), signed=s, n_word=w, n_frac=nf, raw=raw))
+    # the renderings exactly as returned (a 2-dimensional object gives a list of arrays of strings)
+    if not isinstance(h, str) and h is not None and len(getattr(x.val, 'shape', ())) == 2:
+        for raw in (True, False):
+            if not raw and w > 53:
+                continue
+            _try(lambda: Fxp(copy.deepcopy(h), s, w, nf, raw=raw))
+            _try(lambda: Fxp(copy.deepcopy(bp), s, w, nf, raw=raw))
+            _try(lambda: mk().set_val(copy.deepcopy(h), raw=raw))
+            if not raw:
+                _try(lambda: mk()(copy.deepcopy(bp)))
+            _try(lambda: mk().from_bin(copy.deepcopy(b), raw=raw))
+    # every prefix that can be selected, by argument and by configuration, renders and parses back
+    sel = ctx.rng_for('prefix', w * 1000 + nf * 7 + (1 if s else 0) + len(str(b)) % 97)
+    bpf = sel.choice(['b', 'B', '0B'])
+    hpf = sel.choice(['x', 'X', '0X', 'h', '0h', 'H', '0H'])
+    rb = _try(lambda: x.bin(prefix=bpf))
+    rh = _try(lambda: x.hex(prefix=hpf))
+    xc = _try(lambda: copy.deepcopy(x))
+    if xc is not None:
+        _try(lambda: setattr(xc.config, 'bin_prefix', bpf))
+        _try(lambda: xc.bin())
+        if _try(lambda: xc.hex()) is not None or True:
+            ctx.floor_hit(('render-cfg', 'bin_prefix'))
+        _try(lambda: setattr(xc.config, 'hex_prefix', None))
+        _try(lambda: xc.hex())
+        ctx.floor_hit(('render-cfg', 'hex_prefix_none'))
+        _try(lambda: setattr(xc.config, 'hex_prefix', hpf))
+        _try(lambda: xc.hex())
+    for raw in (True, False):
+        if not raw and w > 53:
+            continue
+        for r in (rb, rh):
+            if r is None:
+                continue
+            _try(lambda: Fxp(fresh(r), s, w, nf, raw=raw))
+            _try(lambda: mk().set_val(fresh(r), raw=raw))
+            if not raw:
+                _try(lambda: mk()(fresh(r)))
     if bd is not None and 0 < nf < w and w <= 53:
         r = normalise(bd)
         pre = ('0b' + r) if isinstance(r, str) else None
